@@ -144,10 +144,7 @@ def exprRaw (K : Closures) : Val → Text
        | some p => K.present p
        | none => c.assemble (elemsText K c xs))
     else []
-  | .cnd f c kw op ex =>
-    match f with
-    | .alias => unsupportedText       -- an alias without methods has no String()
-    | _ => if condValid K c kw op ex then condAssemble K c kw op (exprRaw K ex) else []
+  | .cnd _ c kw op ex => if condValid K c kw op ex then condAssemble K c kw op (exprRaw K ex) else []
   | .leaf l =>
     match l.text with
     | some t => t
